@@ -1,7 +1,7 @@
 #!/bin/bash
 # regenerate every evidence file on the current tree (quick tier)
 cd /verif
-for p in C01 C03 C04 C05 C06 C07 C08 C09 C13 C14 C16 C17 C19; do
+for p in C01 C03 C04 C05 C06 C07 C08 C09 C13 C14 C16 C17 C18 C19; do
   s=$(date +%s); ./check.py $p --tier ${1:-quick} > .cache/logs/all-$p.out 2>&1; rc=$?
   echo "$p rc=$rc $(( $(date +%s) - s ))s $(grep -E "^$p" .cache/logs/all-$p.out | cut -c1-160)"
 done
